@@ -567,8 +567,10 @@ class Check:
         ev = {"property_id": self.pid, "tier": self.tier, "seed": self.seed, "level": "other", "coverage": cov,
               "assumptions": self.assumptions + [f"stub/contract: {x}" for x in self.stubs] + [f"bound: {k} = {v}" for k, v in self.bounds.items()],
               "wall_s": round(wall, 2), "violations": len(self.violations)}
-        os.makedirs(os.path.join(ROOT, "evidence"), exist_ok=True)
-        with open(os.path.join(ROOT, "evidence", f"{self.pid}.json"), "w") as f:
+        # experiments against scratch trees (seeded changes, refactorings) write their evidence elsewhere: /verif/evidence describes /repo only
+        evdir = os.environ.get("VERIF_EVIDENCE_DIR") or os.path.join(ROOT, "evidence")
+        os.makedirs(evdir, exist_ok=True)
+        with open(os.path.join(evdir, f"{self.pid}.json"), "w") as f:
             json.dump(ev, f, indent=1, default=str)
         self.log(f"obligations {n_ob} discharged {n_dis} queries {self.queries} solver {self.solver_time:.1f}s wall {wall:.1f}s "
                  f"violations {len(self.violations)} known {len(self.known_hits)} inconclusive {len(self.inconclusive)}")
